@@ -54,6 +54,9 @@ type Cfg struct {
 	PreHost  func(h *extension.Host) `json:"-"`
 	PostHost func(h *extension.Host) `json:"-"`
 	NoHTTP   bool                    `json:"-"`
+	// NetDebug sets SMTP.Debug and POP3.Debug the way the daemon's -netdebug flag does (dialogues
+	// are echoed to stdout); set by a check's Run.
+	NetDebug bool `json:"-"`
 	// Assembled builds the world with server.FullAssembly (the function cmd/inbucket calls) instead
 	// of wiring the components here: store from storage.FromConfig, Lua host from a script file,
 	// routes on the package's router, servers as the assembly parameterises them.  What the world
@@ -175,6 +178,9 @@ func NewWorld(c Cfg) (*World, error) {
 	conf, err := ProcessCfg(c)
 	if err != nil {
 		return nil, err
+	}
+	if c.NetDebug {
+		conf.SMTP.Debug, conf.POP3.Debug = true, true
 	}
 	w.Conf = conf
 	if c.Assembled && c.PreHost == nil {
